@@ -944,6 +944,10 @@ func c06SliceAliasInLoop(c *Ctx) {
 	keywordSources(c, "R06m", map[string][]string{"MaxLength": {"MaxBytes"}})
 	r.Rule("R06n", "the flatten and discriminated-oneof encoders remove the wrapper key whenever the field is set (never conditionally on the child's content): the wire carries only the promoted keys the schema describes", 2)
 	wrapperKeyAlwaysRemoved(c, "R06n")
+	r.Rule("R06o", "children promoted from a (sebuf.http.flatten) message field are not listed in required: the keys are absent whenever the flattened field is unset, which the rules and the generated code accept", 1)
+	if pk0 := c.P.Pkg(pkgOpenAPI); pk0 != nil {
+		c19Required(c, c.oaDecls(pkgOpenAPI), pk0.TypesInfo, "R06o", true)
+	}
 	r.Rule("R06l", "per-iteration slices (required lists, parameter lists) of the OpenAPI generator do not share a backing array with a slice from outside the loop", 1)
 	pk := c.P.Pkg(pkgOpenAPI)
 	if pk == nil {
